@@ -342,6 +342,61 @@ Definition split_sep (s : str) : list str := split_sep_aux [] s.
 Definition process_expanding_be (l r : str) (lits : list str) : str :=
   join_sep (map (fun x => l ++ x ++ r) (split_sep (render_in_list lits))).
 
+(* ---------------------------------------------------------------- numeric paramstyles *)
+
+(* For paramstyle numeric / numeric_dollar the compiler replaces every  %(name)s  of the finished
+   statement text by the positional marker of the parameter <name>
+       self._pyformat_pattern.sub(lambda m: param_pos[m.group(1)], ...)     r"%\(([^)]+?)\)s"
+   (SQLCompiler._process_numeric at compile time, _process_parameters_for_postcompile for expanded
+   parameters) - literals that are already part of the text included.  [pyformat_at s] is the match of
+   that pattern at the start of [s]: the name and what follows. *)
+Fixpoint span_name (s : str) : str * str :=
+  match s with
+  | c :: r => if c =? 41 then ([], s) else let (a, b) := span_name r in (c :: a, b)
+  | [] => ([], [])
+  end.
+Definition pyformat_at (s : str) : option (str * str) :=
+  match s with
+  | c1 :: c2 :: r =>
+    if (c1 =? 37) && (c2 =? 40) then
+      match span_name r with
+      | (name, c3 :: c4 :: rest) =>
+          if nonempty name && (c3 =? 41) && (c4 =? 115) then Some (name, rest) else None
+      | _ => None
+      end
+    else None
+  | _ => None
+  end.
+(* the first place where the pattern matches: the parameter name it asks for *)
+Fixpoint find_pyformat (s : str) : option str :=
+  match pyformat_at s with
+  | Some (name, _) => Some name
+  | None => match s with _ :: r => find_pyformat r | [] => None end
+  end.
+Definition is_numeric_style (p : paramstyle) : bool :=
+  match p with Numeric | NumericDollar => true | _ => false end.
+
+(* For the positional paramstyles qmark / format, SQLCompiler._process_positional rewrites the
+   finished text once more:  re.sub(_positional_pattern, find_position, self.string)  turns every
+   %(name)s  into the placeholder  ?  /  %s  - in literal_binds mode the literals are already in the
+   text.  (literal_execute values are inserted after this pass.)  [skip] = characters of a match still
+   to be dropped. *)
+Fixpoint pysub (ph : str) (skip : nat) (s : str) : str :=
+  match s with
+  | [] => []
+  | c :: r =>
+    match skip with
+    | S k => pysub ph k r
+    | O =>
+      match pyformat_at s with
+      | Some (name, _) => ph ++ pysub ph (length name + 3) r
+      | None => c :: pysub ph 0 r
+      end
+    end
+  end.
+Definition positional_placeholder (p : paramstyle) : option str :=
+  match p with Qmark => Some [63] | Format => Some [37; 115] | _ => None end.
+
 (* ================================================================== spec side *)
 
 (* ---- format / pyformat DBAPIs apply  statement % parameters :  %% -> % *)
